@@ -115,6 +115,9 @@ fn c02_sig(diff: &str, m1: &Beatmap) -> String {
                 if diff.contains("control_points") || diff.contains("curve") || diff.contains("velocity") {
                     return format!("path-roundtrip:{sh}");
                 }
+                if diff.contains("node samples") && s.node_samples.iter().any(|n| n.iter().any(|x| matches!(x.name, rosu_map::section::hit_objects::hit_samples::HitSampleInfoName::File(_)))) {
+                    return "node-file-sample".into();
+                }
             }
         }
         return format!("object:{}", rest.split('.').nth(1).unwrap_or(""));
